@@ -434,6 +434,7 @@ def stage_e2e(ctx):
         if failed_by.get(name, 0) >= 2:
             # circuit breaker: two reproduced failures of this template are enough, each costs backstop time
             ctx.count('e2e_skipped_after_failures')
+            tcount[name] = tcount.get(name, 0) + 1
             continue
         bad, notes = run_e2e_once(sc, workdir)
         tcount[name] = tcount.get(name, 0) + 1
